@@ -55,7 +55,7 @@ pub fn h_c11_fault<const N: usize, S: Nd>(nd: &mut S, would_block: bool) -> Out 
     if would_block {
         check!(is_wb, "C11: would-block not surfaced as would-block");
         check!(n == 0, "C11: would-block must report zero discarded bytes");
-        check!(norm(s2) == norm(p.s) && bl2 == p.bl, "C11: would-block changed the decoder state (reading would not resume where it stopped)");
+        check!(norm(s2) == norm(p.s) && bl2 == p.bl, "C11/C08: would-block changed the decoder state (reading would not resume where it stopped; partial start sequence / noise count lost)");
         let buf = d.verif_buf();
         let mut i = 0;
         while i < N {
